@@ -26,7 +26,7 @@ class FakePat:
         USED.append((self.p, str(v)))
         if self.p == '' or self.p == '.':
             return True            # axiom: names are non-empty, so '' and '.' match
-        return M[(self.p, str(v))]
+        return M.get((self.p, str(v)), False)     # a name nobody announced: recorded in USED, checked by the caller
 
     def __ch_deep_realize__(self, memo):
         return self
@@ -41,7 +41,7 @@ class _FakeRe:
 
 
 FL.re = _FakeRe
-POOL = ['a', 'b', 'c', '']
+POOL = ['a', 'b', 'c', '', '.']
 PERMS3 = [(0, 1, 2), (0, 2, 1), (1, 0, 2), (1, 2, 0), (2, 0, 1), (2, 1, 0)]
 
 
@@ -149,8 +149,9 @@ def plumb(i0, g0, i1, g1, two, m00, m01, m10, m11, which):
     pats = [('!' if g0 else '') + pick(POOL[:3], i0)]
     if two:
         pats.append(('!' if g1 else '') + pick(POOL[:3], i1))
-    which = pick([0, 1, 2], which)
-    names = [['t0', 't1'], ['pk.tests', 'pk.sub.tests'], ['w.A', 'w.B']][which]
+    which = pick([0, 1, 2, 3], which)
+    del USED[:]
+    names = [['t0', 't1'], ['pk.tests', 'pk.sub.tests'], ['w.A', 'w.B'], ['kp.pk.tests', 'kp.pk.sub.tests']][which]
     M.clear()
     for p in POOL[:3]:
         M[(p, names[0])] = False
@@ -171,7 +172,7 @@ def plumb(i0, g0, i1, g1, two, m00, m01, m10, m11, which):
         suites = [unittest.TestSuite([T('t0'), unittest.TestSuite([T('t1')])])]
         found = F.find_tests(o, suites)
         got = sorted(str(t) for s in found.values() for t in s)
-    elif which == 1:
+    elif which in (1, 3):
         argv = ['--test-path', '/r']
         for p in pats:
             argv += ['-m', p]
@@ -180,7 +181,11 @@ def plumb(i0, g0, i1, g1, two, m00, m01, m10, m11, which):
         sep = F.os.path.sep
         files = ['/r/pk/tests.py', '/r/pk/sub/tests.py']
         orig = (F.find_test_files, F.import_name)
-        F.find_test_files = lambda options: iter([(f.replace('/', sep), '') for f in files])
+        pkg = 'kp' if which == 3 else ''      # which == 3: the directory is knit in as package 'kp' (--package-path)
+        if pkg:
+            o.test_path = [('/r', pkg)]
+            o.prefix = [('/r' + sep, pkg)]
+        F.find_test_files = lambda options: iter([(f.replace('/', sep), pkg) for f in files])
 
         def imp(name):
             IMPORTED.append(name)
@@ -207,8 +212,9 @@ def plumb(i0, g0, i1, g1, two, m00, m01, m10, m11, which):
         o.output = _Out()
         FL.Filter(r).global_setup()
         got = sorted(r.tests_by_layer_name)
-    LAST = (which, tuple(pats), got)
-    return got == sorted(exp)
+    stray = sorted({u[1] for u in USED if u[1] not in names})
+    LAST = (which, tuple(pats), got, tuple(stray))
+    return got == sorted(exp) and not stray
 
 
 class _Out:
@@ -224,7 +230,7 @@ def plumb_reach(*a):
 _P = [('n', 'int')] + [('i%d' % k, 'int') for k in range(4)] + [('g%d' % k, 'bool') for k in range(4)] + \
     [('ma', 'bool'), ('mb', 'bool'), ('mc', 'bool'), ('perm', 'int'), ('xi', 'int'), ('xg', 'bool')]
 _C = 'n, i0, i1, i2, i3, g0, g1, g2, g3, ma, mb, mc, perm, xi, xg'
-_RANGE = ' and '.join('0 <= i%d < 4' % k for k in range(4)) + ' and 0 <= perm < 6 and 0 <= xi < 4'
+_RANGE = ' and '.join('0 <= i%d < 5' % k for k in range(4)) + ' and 0 <= perm < 6 and 0 <= xi < 5'
 
 
 def _fv(**kw):
@@ -248,8 +254,8 @@ SPEC = {
     'harnesses': [
         {'name': 'flt', 'fn': 'flt', 'params': _P, 'call': _C,
          'bounds': {'quick': '1 <= n <= 2 and perm == 0 and ' + _RANGE, 'thorough': '1 <= n <= 3 and ' + _RANGE},
-         'slices': {'quick': ['xi == %d and n == %d' % (x, n) for x in range(4) for n in (1, 2)],
-                    'thorough': ['xi == %d and n == %d and i0 == %d' % (x, n, i) for x in range(4) for n in (1, 2, 3) for i in range(4)]},
+         'slices': {'quick': ['xi == %d and n == %d' % (x, n) for x in range(5) for n in (1, 2)],
+                    'thorough': ['xi == %d and n == %d and i0 == %d' % (x, n, i) for x in range(5) for n in (1, 2, 3) for i in range(5)]},
          'reach': 'flt_reach', 'reach_bounds': {'quick': 'n == 2 and perm == 0 and xi == 0 and ' + _RANGE,
                                                 'thorough': 'n == 2 and perm == 0 and xi == 0 and ' + _RANGE},
          'timeout': {'quick': 200, 'thorough': 800},
@@ -258,12 +264,12 @@ SPEC = {
          'params': [('i0', 'int'), ('g0', 'bool'), ('i1', 'int'), ('g1', 'bool'), ('two', 'bool'),
                     ('m00', 'bool'), ('m01', 'bool'), ('m10', 'bool'), ('m11', 'bool'), ('which', 'int')],
          'call': 'i0, g0, i1, g1, two, m00, m01, m10, m11, which',
-         'bounds': {'quick': '0 <= i0 < 3 and 0 <= i1 < 3 and 0 <= which < 3 and i0 == 0',
-                    'thorough': '0 <= i0 < 3 and 0 <= i1 < 3 and 0 <= which < 3'},
-         'slices': {'quick': ['which == %d' % w for w in range(3)],
-                    'thorough': ['which == %d and i0 == %d' % (w, i) for w in range(3) for i in range(3)]},
+         'bounds': {'quick': '0 <= i0 < 3 and 0 <= i1 < 3 and 0 <= which < 4 and i0 == 0',
+                    'thorough': '0 <= i0 < 3 and 0 <= i1 < 3 and 0 <= which < 4'},
+         'slices': {'quick': ['which == %d' % w for w in range(4)],
+                    'thorough': ['which == %d and i0 == %d' % (w, i) for w in range(4) for i in range(3)]},
          'reach': 'plumb_reach',
          'fidelity': [dict(i0=0, g0=False, i1=1, g1=True, two=True, m00=True, m01=True, m10=False, m11=True, which=w)
-                      for w in range(3)]},
+                      for w in range(4)]},
     ],
 }
